@@ -39,7 +39,8 @@ var Analyzer = SCAnalyzer.Analyzer
 var checkEncodingBinaryRules = map[string]callcheck.Check{
 	"encoding/binary.Write": func(call *callcheck.Call) {
 		arg := call.Args[knowledge.Arg("encoding/binary.Write.data")]
-		if !CanBinaryMarshal(call.Pass, call.Parent, arg.Value) {
+		// call.Parent has no position when the call is in the initializer of a package-level variable.
+		if !CanBinaryMarshal(call.Pass, call.Instr, arg.Value) {
 			arg.Invalid(fmt.Sprintf("value of type %s cannot be used with binary.Write", arg.Value.Value.Type()))
 		}
 	},
